@@ -166,6 +166,10 @@ class SymKernel(BaseKernel):
     def is_sym(self, x):
         return isinstance(x, Sym) and not x.is_const()
 
+    def set_solver_model(self, model):
+        """Install an obligation-specific model of spsolve (symbolic interpretation only)."""
+        symscipy.GHOST["model"] = model
+
     def system_equiv(self, A_code, rhs_code, A_spec, rhs_spec, dx, label, fixed_idx=()):
         """The linear system the code handed to the solver is EQUIVALENT to the spec system (same solution set):
 
@@ -314,7 +318,7 @@ class SymKernel(BaseKernel):
         return g
 
 
-def linear_membership(st, target, gens, points=3, seed=1):
+def linear_membership(st, target, gens, points=3, seed=1, multipliers=None):
     """Is target in the Q-span (constant cofactors) of gens, modulo the rewrite rules?
 
     gens/target are Polys (or Syms without denominator).  The candidate coefficients are found by exact
@@ -324,6 +328,10 @@ def linear_membership(st, target, gens, points=3, seed=1):
     """
     import random
     gens = [g.n if isinstance(g, Sym) else g for g in gens]
+    if multipliers:
+        # bounded-degree cofactors: constants times the listed multiplier polynomials
+        ms = [m.n if isinstance(m, Sym) else m for m in multipliers]
+        gens = gens + [m * g for m in ms for g in gens]
     gens = [P.nf(g) for g in gens if not g.is_zero()]
     target = P.nf(target)
     if target.is_zero():
